@@ -950,6 +950,7 @@ def d8(cx: Cx, ob: Ob) -> None:
 
 @obligation("C15-D9", "JSON round trip: no serializer hook in the Reference hierarchy drops or rewrites a field by truthiness (an empty-string name is a value, None is the absence)", floor=3)
 def d9(cx: Cx, ob: Ob) -> None:
+    _validators_keep_required_fields(cx, ob)
     for ci in ref_classes(cx, ob):
         ob.site(f"src/curies/{ci.module.relpath}:{ci.node.lineno} {ci.qualname}", "serializer hooks")
         for m in ci.methods.values():
@@ -969,6 +970,75 @@ def d9(cx: Cx, ob: Ob) -> None:
                         witness="NamedReference(prefix='a', identifier='1', name='') dumps without 'name' and fails to validate",
                         detail="serializer-truthiness",
                     )
+
+
+def _validators_keep_required_fields(cx: Cx, ob: Ob) -> None:
+    """An (after-mode) field validator is inherited together with the field; pydantic does not re-check what it
+    returns.  One that can return None for a field that a SUBCLASS re-declares as required and not Optional puts None
+    where the subclass promises a string - `NamedReference(.., name='')` then carries no name, and its JSON form no
+    longer validates back."""
+    import ast
+
+    classes = ref_classes(cx, ob)
+    for ci in classes:
+        for m in ci.methods.values():
+            decos = [d for d in m.node.decorator_list if isinstance(d, ast.Call) and ast.unparse(d.func).rsplit(".", 1)[-1] == "field_validator"]
+            for d in decos:
+                mode = next((k.value.value for k in d.keywords if k.arg == "mode" and isinstance(k.value, ast.Constant)), "after")
+                fields = [a.value for a in d.args if isinstance(a, ast.Constant) and isinstance(a.value, str)]
+                if mode != "after" or not fields:
+                    continue
+
+                def may_be_none(e) -> bool:
+                    if isinstance(e, ast.Constant):
+                        return e.value is None
+                    if isinstance(e, ast.BoolOp) and isinstance(e.op, ast.Or):
+                        return may_be_none(e.values[-1])
+                    if isinstance(e, ast.IfExp):
+                        return may_be_none(e.body) or may_be_none(e.orelse)
+                    return False
+
+                rets = [r for r in ast.walk(m.node) if isinstance(r, ast.Return) and r.value is not None and may_be_none(r.value)]
+                if not rets:
+                    continue
+                for sub in classes:
+                    if sub is ci or ci not in cx.model.bases(sub):
+                        continue
+                    for f in fields:
+                        ann, default = sub.fields.get(f, (None, None))
+                        if ann is None:
+                            continue
+                        txt = ast.unparse(ann)
+                        # `= Field(..., description=..)` (Ellipsis: required) or no default at all
+                        required = default is None or (isinstance(default, ast.Call) and ast.unparse(default.func).rsplit(".", 1)[-1] == "Field" and ((default.args and isinstance(default.args[0], ast.Constant) and default.args[0].value is Ellipsis) or (not default.args and not any(k.arg in ("default", "default_factory") for k in default.keywords))))
+                        if "None" in txt or "Optional" in txt or not required:
+                            continue
+                        ob.site(f"src/curies/{ci.module.relpath}:{m.node.lineno} {m.qualname}", f"validator of {f!r}, inherited by {sub.name} where {f}: {txt}")
+                        body_txt = ast.unparse(m.node)
+                        # `if cls.model_fields[F].is_required(): return <the value as given>` in front of everything else:
+                        # where the field is required the validator is the identity
+                        value_param = m.node.args.args[1].arg if len(m.node.args.args) > 1 else None
+                        first = next((st for st in m.node.body if not (isinstance(st, ast.Expr) and isinstance(st.value, ast.Constant))), None)
+                        if (
+                            isinstance(first, ast.If)
+                            and ast.unparse(first.test) in (f"cls.model_fields['{f}'].is_required()", f'cls.model_fields["{f}"].is_required()')
+                            and len(first.body) == 1
+                            and isinstance(first.body[0], ast.Return)
+                            and isinstance(first.body[0].value, ast.Name)
+                            and first.body[0].value.id == value_param
+                            and not any(r in ast.walk(first) for r in rets)
+                        ):
+                            continue
+                        if "model_fields" in body_txt or "is_required" in body_txt or "__name__" in body_txt or "issubclass" in body_txt:
+                            ob.undecide(f"{m.qualname} can return None for {f!r} and looks at the class it runs for: whether that keeps {sub.name}.{f} (declared `{txt}`) a string is not followed")
+                            continue
+                        ob.violate(
+                            m.qualname,
+                            where(m, rets[0].lineno),
+                            f"{ci.name}.{m.name} (field validator of {f!r}, run after the type check and inherited by {sub.name}) can return None (`{ast.unparse(rets[0])[:50]}`), but {sub.name} declares `{f}: {txt}` - required, not Optional: pydantic does not check a validator's result, so a {sub.name} can now hold {f}=None; it dumps to JSON with null and that JSON does not validate back to an equal object",
+                            witness=f"{sub.name}(prefix='a', identifier='1', {f}='').{f} is None; {sub.name}.model_validate_json(x.model_dump_json()) raises",
+                            detail=f"validator-none-for-required:{sub.name}.{f}",
+                        )
 
 
 @obligation("C15-X12", "def-use lints over the files this property is anchored in (api.py, triples.py): no one-shot iterator (generator expression, map, filter, zip, iter, reversed, enumerate, generator call) bound to a name is consumed twice or inside a loop that starts after its creation; no mutable default argument is mutated, stored or returned; no binary search over a sequence that is not kept sorted; no container resized inside the loop that iterates it; no Iterable parameter consumed twice before it is materialised; itertools.groupby only over input sorted by the grouping key", floor=1)
